@@ -159,6 +159,11 @@ def run(ctx):
                   'all three corresponding distances must agree: |d(a_i,a_j) - d(b_i,b_j)| < tolerance for (1,2),(1,3),(2,3), conjoined',
                   found='clauses=%d pairs=%s' % (len(clauses), sorted(pairs)), detail=str(sorted(pairs)))
 
+    # ---- R17.5 forward_transformed (same rule as R09.2/R09.3 for Frame::forward_transformed)
+    ctx.rule('R17.5', 'forward_transformed solves inverse_continuing(frame * forward(qs), previous) on the wrapped robot and returns (solutions, that pose)')
+    from . import C09
+    C09.forward_transformed(ctx, prog, 'R17.5', 'R17.5')
+
     # ---- R17.4
     tl = util.find_one(ctx, suffix='frame::Frame::translation')
     rt = strip(tl.return_term())
